@@ -5,7 +5,7 @@ from vf import adapter, linegram
 from vf.core import Violation, case_hash
 from vf.gen_sem import semantic_program
 from vf.props.common_sem import Analysed
-from vf.props.detectors_ref import DANGER
+from vf.props.detectors_ref import DANGER, lit_valuations
 from vf.rcfg import RCFG
 from vf.rlit import Lit
 
@@ -150,9 +150,53 @@ def check(case):
             "counters": {"reported_paths": npaths}}
 
 
+def check_literal(case):
+    """'contains no block at which the dangerous value has been excluded', read on the contract itself: on
+    programs whose checks are consumed in the block that computes them (operands from other blocks are opaque)
+    a block is excluded for a detector when no accepting walk through it admits the dangerous value under the
+    literal reading (two-field detectors: one field at a time). Such a block must not lie on a reported path."""
+    an = Analysed(case)
+    g = an.g
+    lit = Lit(g, case["items"])
+    names = list(DANGER)
+    try:
+        res = adapter.run_detectors(an.tealer, names)
+    except adapter.TealerCrash as e:
+        raise Violation("detector-crash", f"{e}\n{g.text}")
+    npaths = 0
+    nchecked = 0
+    for det in names:
+        paths = res[det].paths
+        if not paths:
+            continue
+        alts = lit_valuations(det, g)
+        ci_sets = [[lit.walks(v)[1] for v in alt] for alt in alts]
+        for path in paths:
+            npaths += 1
+            for b in path:
+                bi = lit.block_by_line.get(b.entry_instr.line)
+                if bi is None:
+                    continue
+                nchecked += 1
+                # admitted at the block under some alternative: every field of the alternative, read on its own,
+                # leaves an accepting walk through the block
+                if not any(all(bi in ci for ci in alt_ci) for alt_ci in ci_sets):
+                    lines = [x.entry_instr.line for x in path]
+                    raise Violation("literally-excluded-block-on-path", f"{det}: reported path {lines} goes through the block at line {b.entry_instr.line}, but reading the checks literally no accepting execution through that block carries the dangerous value\n{g.text}", {"detector": det})
+    feats = set(case.get("features", []))
+    return {"nontrivial": npaths > 0 and bool(lit.block_fields()) and bool({"xconn", "and", "or", "not", "const_left"} & feats),
+            "key": case_hash(g.text), "features": sorted(feats), "counters": {"reported_paths": npaths, "path_blocks_checked": nchecked}}
+
+
 def components(tier, disabled):
     q = tier == "quick"
+    # the literal component reads checks exactly, so the shapes behind C03's known findings stay switched off for it
+    from vf.core import disabled_features
+
+    lit_off = sorted(set(disabled) | set(disabled_features("C03")))
     return {
+        "literal": {"strategy": semantic_program(profile="direct", disabled=lit_off, max_stmts=(12 if q else 18), xflag=True),
+                    "check": check_literal, "examples": 1600 if q else 60000, "sample": lambda c, i: RCFG(c).text},
         "lsig": {"strategy": semantic_program(profile="modelled", disabled=disabled, max_stmts=(12 if q else 18), mode="lsig"),
                  "check": check, "examples": 1600 if q else 70000, "sample": lambda c, i: RCFG(c).text},
         "app": {"strategy": semantic_program(profile="modelled", disabled=disabled, max_stmts=(12 if q else 18), mode="app"),
